@@ -1,5 +1,6 @@
 """C06 — acknowledged means persisted; rejected means no trace."""
 from checks.enginelib import *
+from checks import batchlib
 
 META = {
     "text": 'Lean: component model Ack (every entry written or queued during the run is tagged with the request that committed it); inductive invariant Ack.Inv (step_inv, for every choice of previews); theorems over all accepted event sequences incl. crashes and store failures: ack_implies_durable + ack_only_when_durable (a success stands for an entry persisted at that moment, carrying the answered transaction id), ack_stays_durable (the store only grows), every_entry_has_producer (store = initial log ++ entries each committed by a real request), error_leaves_nothing (now or later), one_entry_per_request, answer_is_the_entry, crash_before_persist_leaves_nothing (lost logs: no entry, producers never acknowledged, wake-up and success rejected), store_failure_never_acks, wake_only_when_durable. Tie: trace validation (a request is woken only when its own log is persisted; success only with a persisted entry with that id; no commit by an answered request); oracle: responses vs the durable log at response time.',
@@ -10,4 +11,13 @@ META = {
 
 
 def run(ctx):
+    area = batchlib.replay_area(ctx)
+    if area == batchlib.AREA:       # a replay of the component stage: the operation sequence alone
+        ctx.l1()
+        batchlib.run_batcher(ctx, 'C06')
+        return
     run_check(ctx, 'C06', ["ack"], lambda scn, run: concurrent(scn, run) or restarted(run) or any(isinstance(t, dict) and t.get("a") == -1 and t.get("ok") is False for t in run["trace"]), 'a response and a persistence event were concurrent, or the process died, or the store failed')
+    if area is not None:
+        return
+    # stage 2: batching.Batcher + job.Runner as components of their own (batch boundaries, a stop with work queued, a failing runner call)
+    batchlib.run_batcher(ctx, 'C06')
